@@ -737,7 +737,10 @@ struct _future_sender_from_stop_token<T...>::type final {
 
                 using return_t = variant_sender<value_t, error_t, done_t>;
 
-                auto state = rawOp->state_.load(std::memory_order_relaxed);
+                // acquire: if the spawned operation has already handed us
+                // clean-up responsibility (state complete) we are about to
+                // delete the state it was still using before that hand-over
+                auto state = rawOp->state_.load(std::memory_order_acquire);
 
                 // we capture state by reference because it may be updated by
                 // the compare_exchange_strong below
